@@ -35,6 +35,147 @@ func runC05(c *Ctx) {
 	ruleY2(c, "Y2")
 	ruleY3(c, "Y3")
 	ruleY4(c, "Y4")
+	ruleY5(c, "Y5")
+	ruleY6(c, "Y6")
+}
+
+// ruleY6: every yaml.Node that MarshalYAML hands to the YAML library was
+// filled by copyToYamlNode (the one place that carries comments, style, tag,
+// anchor, alias, position), on every path from its creation to the return —
+// for every node kind, aliases included.
+func ruleY6(c *Ctx, rule string) {
+	r := c.R
+	r.Rule(rule, "every yaml.Node returned by MarshalYAML passed through copyToYamlNode", 4)
+	fn := c.libFunc("CandidateNode.MarshalYAML")
+	if fn == nil {
+		r.Fatal("anchor missing: (*CandidateNode).MarshalYAML")
+		return
+	}
+	n := 0
+	for _, b := range fn.Blocks {
+		ret, ok := b.Instrs[len(b.Instrs)-1].(*ssa.Return)
+		if !ok || len(ret.Results) != 2 {
+			continue
+		}
+		al, ok := ret.Results[0].(*ssa.Alloc)
+		if !ok {
+			continue // nil, err
+		}
+		n++
+		key := fmt.Sprintf("MarshalYAML/return#%d", n)
+		fills := func(ins ssa.Instruction) bool {
+			cc := callCommon(ins)
+			if cc == nil || cc.StaticCallee() == nil || cc.StaticCallee().Name() != "copyToYamlNode" {
+				return false
+			}
+			for _, a := range cc.Args {
+				if a == ssa.Value(al) {
+					return true
+				}
+			}
+			return false
+		}
+		ai := 0
+		for i, ins := range al.Block().Instrs {
+			if ins == ssa.Instruction(al) {
+				ai = i
+			}
+		}
+		if pathAvoiding(fn, al.Block(), ai, b, len(b.Instrs)-1, fills) {
+			r.Finding(rule, key, c.P.pos(ret.Pos()), "a yaml.Node is returned that did not pass through copyToYamlNode: its comments (and whatever else copyToYamlNode carries) are lost when the document is written back")
+		} else {
+			r.Discharge(rule, key, c.P.pos(ret.Pos()), "filled by copyToYamlNode on every path")
+		}
+	}
+	if n == 0 {
+		r.Fatal("anchor moved: MarshalYAML returns no locally created yaml.Node")
+	}
+}
+
+// ruleY5: the YAML decoder lifts leading comment lines out of the stream with a
+// line predicate (a regular expression); the encoder that prints that leading
+// content back must recognise a comment line with the same predicate, or a
+// line the decoder collected as a comment is re-emitted as if it were not one.
+func ruleY5(c *Ctx, rule string) {
+	r := c.R
+	r.Rule(rule, "decoder and encoder recognise a leading comment line with the same pattern", 1)
+	patterns := func(name string) (map[string]bool, *ssa.Function) {
+		fn := c.libFunc(name)
+		if fn == nil {
+			r.Fatal("anchor missing: %s", name)
+			return nil, nil
+		}
+		out := map[string]bool{}
+		eachInstr(fn, func(ins ssa.Instruction) {
+			call, ok := ins.(*ssa.Call)
+			if !ok || calleeName(&call.Call) != "regexp.MustCompile" {
+				return
+			}
+			if k, ok := call.Call.Args[0].(*ssa.Const); ok && k.Value != nil {
+				p := constant.StringVal(k.Value)
+				if strings.Contains(p, "#") {
+					out[p] = true
+				}
+			}
+		})
+		// patterns compiled once in a package-level variable that the function reads
+		eachInstr(fn, func(ins ssa.Instruction) {
+			u, ok := ins.(*ssa.UnOp)
+			if !ok {
+				return
+			}
+			g, ok := u.X.(*ssa.Global)
+			if !ok || g.Pkg == nil {
+				return
+			}
+			if init := g.Pkg.Func("init"); init != nil {
+				eachInstr(init, func(i2 ssa.Instruction) {
+					st, ok := i2.(*ssa.Store)
+					if !ok || st.Addr != ssa.Value(g) {
+						return
+					}
+					if call, ok := st.Val.(*ssa.Call); ok && calleeName(&call.Call) == "regexp.MustCompile" {
+						if k, ok := call.Call.Args[0].(*ssa.Const); ok && k.Value != nil {
+							if p := constant.StringVal(k.Value); strings.Contains(p, "#") {
+								out[p] = true
+							}
+						}
+					}
+				})
+			}
+		})
+		return out, fn
+	}
+	dec, dfn := patterns("yamlDecoder.processReadStream")
+	enc, efn := patterns("yamlEncoder.PrintLeadingContent")
+	if dfn == nil || efn == nil {
+		return
+	}
+	if len(dec) == 0 {
+		r.Finding(rule, "yaml/comment-line-pattern", c.P.pos(dfn.Pos()), "the decoder's leading-content scan no longer uses a comment-line pattern: the anchor of this rule moved")
+		return
+	}
+	var missing []string
+	for p := range dec {
+		if !enc[p] {
+			missing = append(missing, p)
+		}
+	}
+	sort.Strings(missing)
+	if len(missing) == 0 {
+		r.Discharge(rule, "yaml/comment-line-pattern", c.P.pos(efn.Pos()), fmt.Sprintf("both sides use %v", keysOf(dec)))
+	} else {
+		r.Finding(rule, "yaml/comment-line-pattern", c.P.pos(efn.Pos()), fmt.Sprintf("the decoder collects leading comment lines with %q but PrintLeadingContent does not test lines with that pattern: a line the decoder took for a comment (e.g. one indented with a tab) is printed back as `# ` + line", missing))
+	}
+}
+
+func keysOf(m map[string]bool) []string {
+	var out []string
+	for k := range m {
+		out = append(out, k)
+	}
+	sort.Strings(out)
+	return out
 }
 
 // fieldAccesses: fields of struct `typeName` read / written through pointers
